@@ -97,6 +97,9 @@ def _run(job):
                 by.append("%s:CRASH(%s)" % (pid, repr(e)[:80]))
                 verdict = "CRASH"
                 continue
+            if res.deferred_broken and verdict == "SURVIVED":
+                by.append("%s:BROKEN(%s)" % (pid, res.deferred_broken[0][:60]))
+                verdict = "INVALID"
             new = sorted({f.rule for f in res.findings if (pid, f.key) not in known})
             if new:
                 verdict = "KILLED"
